@@ -103,5 +103,79 @@ def plan(ctx):
             qs.append(vf.Query('sym/%s/%s' % (c['name'], '+'.join(grp)), unit, h, unwind=n + 3, cbmc_defines=cd,
                                bounds={'N': n, 'K': K, 'rule': c['cxx'], 'documented_expansion': low, 'outcomes': seen, 'variants': grp},
                                mem_gb=2, note='real %s vs documented expansion, over symbolic sub-rules' % c['cxx']))
+    qs += byte_level(ctx, doc)
     ctx.notes.append({'doc_clauses_used': doc.used})
+    return qs
+
+
+# ---- byte-level members: the documented expansion is itself valid C++ (built from rules verified in C01/C10), so the real rule and
+# ---- the real expansion are run on the same symbolic bytes and must agree on result, consumption and raised error
+
+BYTE_RULES = [
+    # (name, instantiation, documentation heading, substitutions for the heading's parameters, NA quick/thorough, alphabet)
+    ('identifier', 'identifier', 'identifier', {}, 4, 'a_1 '),
+    ('keyword', "keyword< 'a', 'b' >", 'keyword< C... >', {'C...': "'a', 'b'"}, 4, 'ab_1'),
+    ('shebang', 'shebang', 'shebang', {}, 5, '#!a\\n\\r'),
+    ('everything', 'everything', 'everything', {}, 4, 'a\\n'),
+    ('ellipsis', 'ellipsis', 'ellipsis', {}, 4, '..a'),
+    ('eolf', 'eolf', 'eolf', {}, 3, '\\r\\na'),
+    ('eol', 'eol', 'eol', {}, 3, '\\r\\na'),
+    ('forty_two', "forty_two< 'a', 'b' >", 'forty_two< C... >', {'C...': "'a', 'b'"}, 44, 'ab'),
+]
+CONTRIB_BYTE_RULES = [
+    ('rep_string', "rep_string< 2, 'a', 'b' >", "rep< 2, string< 'a', 'b' > >", 'tao/pegtl/contrib/rep_string.hpp', 5, 'ab'),
+    ('rep_string0', "rep_string< 0, 'a' >", "rep< 0, string< 'a' > >", 'tao/pegtl/contrib/rep_string.hpp', 2, 'ab'),
+    ('rep_one_min_max', "rep_one_min_max< 1, 3, 'a' >", "rep_min_max< 1, 3, one< 'a' > >", 'tao/pegtl/contrib/rep_one_min_max.hpp', 5, 'ab'),
+    ('rep_one_min_max0', "rep_one_min_max< 0, 2, 'a' >", "rep_min_max< 0, 2, one< 'a' > >", 'tao/pegtl/contrib/rep_one_min_max.hpp', 4, 'ab'),
+]
+
+BYTE_HARNESS = r'''/* generated harness (C09 byte level): %(rule)s  vs its documented expansion  %(exp)s  (both real code) */
+#define VF_ALPHABET "%(alphabet)s"
+#include "verif.h"
+#include "leaf.h"
+#define NA %(NA)d
+static void harness(void) {
+  lf_setup(NA);
+  u64 a[8], b[8];
+  w_rule_ar(lf_buf, lf_n, lf_start, a); w_exp_ar(lf_buf, lf_n, lf_start, b);
+  CHECK(a[0] == b[0], "the rule and its documented expansion agree on success / local failure / global failure");
+  if (a[0] == 1) CHECK(a[1] == b[1], "the rule and its documented expansion consume the same prefix");
+  if (a[0] == 0) CHECK(a[1] == lf_start && b[1] == lf_start, "local failure consumes nothing");
+  if (a[0] == 2) CHECK(a[3] == b[3], "global failure raised at the same position");
+  if (a[0] == 1) CHECK(a[4] == b[4] && a[5] == b[5], "same line and column afterwards");
+  w_rule_ao(lf_buf, lf_n, lf_start, a); w_exp_ao(lf_buf, lf_n, lf_start, b);
+  CHECK(a[0] == b[0] && (a[0] != 1 || a[1] == b[1]), "... also under rewind_mode::optional");
+  OBS(a[0]); OBS(a[1]);
+  REACH(a[0] == 1%(reach_consume)s, "rule matched");
+%(reach_fail)s
+}
+'''
+
+
+def byte_level(ctx, doc):
+    import leafgen
+    qs = []
+    items = []
+    for name, inst, heading, sub, na, alpha in BYTE_RULES:
+        cl = doc.clauses.get(heading) or []
+        if not cl:
+            raise vf.Inconclusive('no [Equivalent] clause for %s in the rule reference' % heading)
+        exp = cl[0][0]
+        for k, v in sub.items():
+            exp = exp.replace(k, v)
+        doc.used.append((inst, heading, cl[0][0], 'byte level: compiled as C++'))
+        items.append((name, inst, exp, None, na, alpha))
+    for name, inst, exp, inc, na, alpha in CONTRIB_BYTE_RULES:
+        items.append((name, inst, exp, inc, na, alpha))
+    for name, inst, exp, inc, na, alpha in items:
+        if name == 'forty_two' and ctx.quick():
+            continue
+        cases = [{'name': 'rule', 'cxx': inst}, {'name': 'exp', 'cxx': exp}]
+        unit = ctx.unit('c09b_' + name, text=leafgen.wrapper_text(cases, includes=[inc] if inc else ()))
+        never_fails = name in ('everything', 'rep_string0', 'rep_one_min_max0')
+        h = ctx.write('b_%s.c' % name, BYTE_HARNESS % {'rule': inst, 'exp': exp, 'alphabet': alpha, 'NA': na,
+                                                        'reach_consume': '' if name in ('eolf', 'rep_string0', 'rep_one_min_max0', 'everything') else ' && a[1] > lf_start',
+                                                        'reach_fail': '' if never_fails else '  REACH(a[0] != 1, "rule did not match");'})
+        qs.append(vf.Query('bytes/' + name, unit, h, unwind=na + 3, mem_gb=4, bounds={'bytes': na, 'rule': inst, 'documented_expansion': exp},
+                           note='real %s vs its documented expansion (real code) on symbolic bytes' % inst))
     return qs
